@@ -313,8 +313,10 @@ impl Envelope {
 
                 let signature_metadata_envelope = signature_object_subject.unwrap_envelope().unwrap();
                 if let Ok(signature) = signature_metadata_envelope.extract_subject::<Signature>() {
-                    let signing_target = self.subject();
-                    if !signing_target.is_signature_from_key(&signature, key) {
+                    // `is_signature_from_key` already looks at the subject;
+                    // taking the subject twice would verify against the wrong
+                    // digest when the subject is itself a node.
+                    if !self.is_signature_from_key(&signature, key) {
                         return None;
                     }
                     Some(Ok(Some(signature_metadata_envelope)))
